@@ -46,11 +46,11 @@ CLAIMED.update({
 CLAIMED.update({
     'C15': dict(level='proof', technique='Lean 4 theorems on the documented formulas over the reals + range/ordering oracle on Go outputs + correspondence',
                 text='Ranges and band orderings are evaluated directly on the Go outputs of every bounded/banded indicator over valid OHLCV series in all regimes (independent of any reference), '
-                     'the Go code is tied to the Lean model by correspondence, and 22 range/ordering theorems are proved over the reals on the documented formulas for every valid OHLCV series, position and period (RSI, MFI, %K, %D bound, Williams %R, Stochastic RSI, Aroon, MFM, CMF, BoP, Bollinger/Keltner/Donchian/Acceleration/Envelope orderings, moving min <= value <= max, std/ATR/Ulcer/band width >= 0), with zero-denominator positions exempt by explicit hypotheses.',
-                design='§6 C15', note=NOTE_COMMON + ' Known findings: Aroon on plateaus, ATR smoothed with a Hull MA.'),
+                     'the Go code is tied to the Lean model by correspondence, and 22 range/ordering theorems are proved over the reals on the documented formulas for every valid OHLCV series, position and period (RSI, MFI, %K, %D bound, Williams %R, Stochastic RSI, Aroon, MFM, CMF, BoP, Bollinger/Keltner/Donchian/Acceleration/Envelope orderings, moving min <= value <= max, std/ATR/Ulcer/band width >= 0), with zero-denominator positions exempt by explicit hypotheses. A non-finite Go value is exempt only where the documented formula (evaluated by the Lean driver) is undefined too.',
+                design='§6 C15', note=NOTE_COMMON + ' Known findings: Aroon on plateaus, ATR smoothed with a Hull MA, NaN persisting after a degenerate bar in CMF, %D and Stochastic RSI.'),
     'C18': dict(level='proof', technique='Lean 4 homogeneity theorems on the model over the reals + bit-exact Go-vs-Go scaling relation with power-of-two factors + correspondence',
                 text='Every indicator output has a declared degree of homogeneity in price and in volume; the relation output(scaled) = factor^degree * output is checked Go-vs-Go bit-for-bit for power-of-two '
-                     'factors on all 61 indicators, the Go code is tied to the Lean model by correspondence, homogeneity theorems (output scaled by k^dp*kv^dv, warm-up unchanged) are proved over the reals for the documented formulas of 52 indicators via structural scaling rules (49 generated + RSI, Stochastic RSI, MFI by hand), and the decision tests of the strategies (comparisons of same-degree quantities, signs, the Stop-Loss test) are proved scale-free; all strategies incl. decorators are additionally run Go-vs-Go under price/volume scaling (identical action streams).',
+                     'factors on all 61 indicators, the Go code is tied to the Lean model by correspondence, homogeneity theorems (output scaled by k^dp*kv^dv, warm-up unchanged) are proved over the reals for the documented formulas of all 61 indicators via structural scaling rules (generated ones + RSI, Stochastic RSI, MFI, VPT, Aroon, KAMA, NVI, SuperTrend and the projection oscillator by hand), and the decision tests of the strategies (comparisons of same-degree quantities, signs, the Stop-Loss test) are proved scale-free; all strategies incl. decorators are additionally run Go-vs-Go under price/volume scaling (identical action streams).',
                 design='§6 C18', note=NOTE_COMMON + ' IEEE scaling by powers of two assumed exact (no overflow/underflow in the generated range). Known finding: Obv.'),
 })
 
@@ -78,9 +78,9 @@ CLAIMED.update({
 CLAIMED.update({
     'C14': dict(level='proof', technique='Lean 4 theorems for the two report shapes (Shift-by-idle columns / Skip-by-idle axis) from alignment + per-report oracle on the real Report column channels',
                 text='Column count = date count is derived in Lean from the alignment of the indicator stream at exactly idle (C02), the action count law (C05) and the normalisation/outcome length laws (C08), '
-                     'for both report shapes, with the MACD report instantiated and the APO column proved one too long as-is. Every report (32 base, 12 compound/decorated) is run in Go: the date channel and all '
+                     'for both report shapes, instantiated for the reports of all 32 base strategies (every moving-average kind of Envelope/SuperTrend), with the APO, Alligator and SMMA columns proved one too long as-is. Every report (32 base, 12 compound/decorated) is run in Go: the date channel and all '
                      'private column channels are drained by independent readers and compared for counts and row contents (close, annotation of the normalised action, outcome, indicator value of the same date).',
-                design='§6 C14', note=NOTE_COMMON + ' Proof-partial: only the MACD and APO reports are instantiated in Lean, the others rest on the generic shape theorems + the Go oracle. text/template rendering is trusted.'),
+                design='§6 C14', note=NOTE_COMMON + ' Compound and decorated reports rest on the generic shape theorems + the Go oracle. Reports written by a backtest (HTMLReport defaults) and the rendered rows (WriteToWriter) are checked on the Go side only. text/template rendering is trusted.'),
 })
 
 CLAIMED.update({
@@ -107,14 +107,14 @@ CLAIMED.update({
 })
 
 CLAIMED.update({
-    'C03': dict(level='proof', technique='Lean 4 proofs about the process-network class (diamond, determinacy of the terminal state incl. the deadlock verdict, capacity monotonicity) + source scan that the library stays in the class + Go runs of every pipeline under schedules/capacities/pacings with a goroutine census',
-                text='Proved for every network of sequential processes over single-reader/single-writer bounded FIFO channels (unbuffered = rendezvous): two enabled processes commute; if one schedule reaches a terminal state every schedule can be extended to that same state and none is longer, so delivered values, their order and the verdict (clean termination or deadlock) do not depend on interleaving, GOMAXPROCS or pacing; a clean termination with small capacities holds for all larger ones. '
-                     'NOT proved: that each concrete pipeline terminates cleanly for every configuration and length - that part is explored by running all 61 indicators, 32 strategies (Compute, Report, ComputeWithOutcome) and compound/decorated strategies over configurations (incl. extreme period spreads), lengths around every period, unequal input lengths, under GOMAXPROCS x input capacity x pacing settings, with a deadlock verdict from a goroutine census, a leak census and comparison of the outputs between schedules and with the Lean list-semantics model. '
-                     'One re-converging pipeline is also modelled at machine level and compared with the Go helpers (verdict and values).',
+    'C03': dict(level='proof', technique='Lean 4 proofs about the process-network class (diamond, determinacy of the terminal state incl. the deadlock verdict, capacity monotonicity, hand-over of channel ends) and clean-termination proofs of three library pipelines + source scan that the library stays in the class + Go runs of every pipeline under schedules/capacities/pacings with a goroutine census',
+                text='Proved for every network of sequential processes over bounded FIFO channels (unbuffered = rendezvous) in which no two processes are ever about to use the same end of a channel (one fixed reader and writer per channel, or ends that are handed over as in Ema/Rma/Smma - for which this is proved as an invariant): two enabled processes commute; if one schedule reaches a terminal state every schedule can be extended to that same state and none is longer, so delivered values, their order and the verdict (clean termination or deadlock) do not depend on interleaving, GOMAXPROCS or pacing; a clean termination with small capacities holds for all larger ones. '
+                     'Clean termination with exactly the documented values is proved, for every input, parameter, capacity and schedule, for three pipelines at machine level: helper.Change, trend.MovingSum (the pipeline under Sma) and the Ema/Rma/Smma hand-over (seed pipeline as one process). NOT proved: that every other concrete pipeline terminates cleanly for every configuration and length - that part is explored by running all 61 indicators, 32 strategies (Compute, Report, ComputeWithOutcome) and compound/decorated strategies over configurations (incl. extreme period spreads), lengths around every period, unequal input lengths, under GOMAXPROCS x input capacity x pacing settings, with a deadlock verdict from a goroutine census, a leak census and comparison of the outputs between schedules and with the Lean list-semantics model. '
+                     'Four machine-level networks (the Duplicate/Operate diamond, Change, MovingSum, Ema) are executed against the Go helpers (verdict and values).',
                 design='§6 C03', note=NOTE_COMMON + ' Termination for all configurations/lengths is bounded exploration, hence proof-partial. The class membership of the code is a regex source scan (no select, no len(chan), no timers/locks in the pipeline packages).'),
     'C09': dict(level='proof', technique='Model: an instance is its configuration (calls are functions of configuration and input - the Lean models of C01/C05 have no instance state); tie: reuse histories and concurrent calls on one Go instance under the race detector compared with fresh instances and the model + receiver-write source scan',
                 text='In the model a Compute/Report call is a pure function of configuration and input, so reuse is definitional; the content is the tie: every indicator and strategy instance (Compute, Report, ComputeWithOutcome; compound and decorated ones; the shared instances of AllSplitStrategies/AllAndStrategies) is called several times in sequence and concurrently with different inputs, race detector on, and each result must equal the fresh-instance result and the Lean model. '
-                     'A source scan rejects assignments to receiver fields inside Compute/Report. Instances re-configured after use (exported fields assigned from a fresh donor, in place, or as a zeroed struct literal) must equal fresh instances (RECONF); reports are rendered concurrently as the first writes of a process.',
+                     'A source scan rejects assignments to receiver fields inside Compute/Report. Instances re-configured after use (exported fields assigned from a fresh donor, in place, or as a zeroed struct literal) must equal fresh instances (RECONF); reports are rendered concurrently as the first writes of a process; instances handed out by registries and default constructors are independent objects (ALIAS: one generation overwritten in place, the others unchanged); one instance on two sides of a compound equals two equal instances.',
                 design='§6 C09', note=NOTE_COMMON + ' Data races are a property of Go memory accesses that the model cannot exhibit: absence of races is witnessed by the race detector on the executions run, not proved.'),
 })
 
